@@ -247,6 +247,13 @@ class PseudoNetCDFVariable(np.ndarray):
         _name = getattr(obj, '_name', 'unknown')
         object.__setattr__(self, '_name', _name)
         ntypecode = getattr(obj, 'typecode', lambda: self.dtype.char)
+        if getattr(obj, 'dtype', self.dtype) != self.dtype:
+            # astype or arithmetic changed the type of the values: the
+            # type code of the source no longer describes them
+            dtchar = self.dtype.char
+
+            def ntypecode():
+                return dtchar
         object.__setattr__(self, 'typecode', ntypecode)
         ndimensions = getattr(obj, 'dimensions', lambda: self.dtype.char)
         object.__setattr__(self, 'dimensions', ndimensions)
@@ -355,8 +362,13 @@ class PseudoNetCDFMaskedVariable(PseudoNetCDFVariable, np.ma.MaskedArray):
 
     def _update_from(self, obj):
         dt = self.dtype.char
-        self.typecode = getattr(
-            obj, 'typecode', lambda: ('c' if dt == 'S' else dt))
+        if getattr(obj, 'dtype', self.dtype) != self.dtype:
+            # astype or arithmetic changed the type of the values: the
+            # type code of the source no longer describes them
+            self.typecode = lambda: ('c' if dt == 'S' else dt)
+        else:
+            self.typecode = getattr(
+                obj, 'typecode', lambda: ('c' if dt == 'S' else dt))
         self.dimensions = getattr(
             obj, 'dimensions', getattr(self, 'dimensions', ()))
         self._ncattrs = getattr(obj, '_ncattrs', getattr(self, '_ncattrs', ()))
